@@ -113,6 +113,13 @@ fn lv_bytes<T: Pod, L: spl_list_view::PodLength>(offset: usize, bytes: &[u8]) ->
         if n < hdr || cap != expect_cap { err = Some(format!("capacity {cap} != (buffer - header) / element size = {expect_cap}")); }
         if sz > 0 && (n - hdr) % sz != 0 { err = Some("accepted a data region that is not a whole number of elements".into()); }
         if (lo + hdr) % al != 0 { err = Some("accepted a misaligned data region".into()); }
+        // the stored length, read at its full width, must not exceed the capacity and must be the view's length
+        let mut le = [0u8; 16];
+        le[..wl].copy_from_slice(&bytes[..wl]);
+        let stored = u128::from_le_bytes(le);
+        let len: usize = ro_s.split("len=").nth(1).unwrap().split(' ').next().unwrap().parse().unwrap();
+        if stored > cap as u128 { err = Some(format!("accepted a buffer whose stored length {stored} exceeds the capacity {cap}")); }
+        else if stored != len as u128 { err = Some("the view's length is not the stored length".into()); }
     } else if ro_s.starts_with("err") {
         // must be rejected for one of the documented reasons
         let mut le = [0u8; 16];
